@@ -235,7 +235,16 @@ def judge(label, job, res, refs, wf_records, kind):
             if a.count(b"\n") != b.count(b"\n"):
                 pass  # the two files are flushed separately on error; each is judged as a prefix above
     else:
-        if res["exit"] != 0:
+        if res["exit"] != 0 and "truncate@" in label:
+            # the cut happened to leave a file that still parses (typically only the final newline is gone).  The property demands
+            # status 0 ONLY for well-formed input, not FOR every such input: refusing a cut file is allowed (the chunked paired
+            # reader of dnaio does so for small buffers), but then the refusal obeys the rules for failures
+            if not res["stderr"].strip():
+                probs.append("no error message on stderr (exit %r)" % res["exit"])
+            for f, content in outs.items():
+                if not boundary_prefix(content, refs.get(f, b""), 2 if f.endswith(".fasta") else 4):
+                    probs.append("output %s is not a record-boundary prefix of the output for the intact input" % f)
+        elif res["exit"] != 0:
             probs.append("exit status %r on well-formed input (%s)" % (res["exit"], res["stderr"].strip()[-200:]))
         else:
             present = set(wf_records)
